@@ -23,7 +23,7 @@ import core
 
 PROP = 'C18'
 SSH = shutil.which('ssh')
-SCRATCH = '/dev/shm/asyncssh-verif-c18'
+SCRATCH = '/dev/shm/asyncssh-verif-c18-%d' % os.getpid()       # unique per check run (workers are forked later)
 HOME = os.path.join(SCRATCH, 'home')
 
 HEADERS = ['Host a', 'Host a*', 'Host *', 'Host !a *', 'Host * !a', 'Host b.example ab', 'Host ?b', 'Host *.example !b.example',
